@@ -166,7 +166,7 @@ def _attrs(i, skip=()):
     return d
 
 
-@family("IR.uses", props=["C02", "C14"], functions=[L + "::*.Uses", L + "::*.ReplaceUses", L + "::Instruction._ReplaceUsesInList"],
+@family("IR.uses", props=["C02", "C14", "C05"], functions=[L + "::*.Uses", L + "::*.ReplaceUses", L + "::Instruction._ReplaceUsesInList"],
         assumptions=["one obligation per instruction class (checked by reflection: every subclass of LinearIR.Instruction has a shape); operands are the Value-typed constructor/setter arguments"])
 def ir_uses(R):
     """For every instruction class: set(i.Uses) is exactly the set of REFERENCES of its operand values (blocks and predicate included for
@@ -258,7 +258,7 @@ def _holds(ins, attr, new):
     return v is new or (isinstance(v, list) and any(x is new for x in v))
 
 
-@family("IR.bookkeeping", props=["C02", "C14"],
+@family("IR.bookkeeping", props=["C02", "C14", "C05"],
         functions=[L + "::BasicBlock.UpdateUses", L + "::Function.UpdateUses", L + "::Function.ReplaceUses", L + "::BasicBlock.GetPreviousInstruction", L + "::Function.RegisterValue",
                    L + "::Function.CreateConstant", L + "::Function.CreateBasicBlock", L + "::BasicBlock.AddInstruction", L + "::VariableAccessInstruction.WithVariable",
                    L + "::BasicBlock._Traverse", L + "::BasicBlock.Replace", L + "::BasicBlock.ReplaceUses", L + "::BasicBlock.__Replace"],
@@ -471,7 +471,7 @@ def _pending(bb):
         assumptions=["instruction sequences enumerated: [store?] [0-2 intervening instructions of every kind] load, in one or two blocks; names are unique across scopes (C12), so a same-name store in another scope is left unconstrained"])
 def opt_las(R):
     """Soundness of load-after-store forwarding: whenever the visitor forwards a load L of variable x to a value v and removes L, there is a
-    store of v to x earlier IN THE SAME BLOCK and no instruction between that store and L can change x (no other store to x, no call); a load at
+    store of v to x earlier IN THE SAME BLOCK and no instruction between that store and L can change x (no other store to x; for a global, no call); a load at
     the start of a block is never forwarded; a store is never touched; forwarded and removed are always registered together."""
     ir = IR()
     cls = resolve(LAS)
@@ -519,8 +519,8 @@ def opt_las(R):
                 for ins in seq[: seq.index(ld)]:
                     if isinstance(ins, ir.VariableAccessInstruction) and ins.Store is not None and ins.Variable == "x" and ins.Scope == scope:
                         last_store, clean = ins, True
-                    elif isinstance(ins, ir.CallInstruction):
-                        clean = False
+                    elif isinstance(ins, ir.CallInstruction) and scope == S.GLOBAL:
+                        clean = False          # only a global can be changed by a callee
                 valid = last_store is not None and clean and forwarded and ru[ld.Reference] is last_store.Store
                 R.check(f"IR.opt.las.sound[{label}]", LAS + ".v_VariableAccessInstruction", (not forwarded) or valid,
                         detail=f"load of x forwarded to {'the value of a store that is not the last store to x / across a call' if forwarded else ''} (sequence: {[type(i).__name__ + ('!' if getattr(i, 'Store', None) is not None else '') for i in seq]})")
